@@ -597,19 +597,11 @@ class Array(DataType):
 
     @classmethod
     def from_parametrized_dtype(cls, polars_dtype: pl.Array):
-        shape = polars_dtype.shape
-
-        if (
-            isinstance(shape, tuple)
-            and isinstance(shape[0], int)
-            and len(shape) > 1
-        ):
-            offset = len(shape) - 1
-            shape = shape[offset:]
-
+        # ``inner`` carries the inner dimensions of a multidimensional array,
+        # ``size`` is the outermost one
         return cls(
             inner=polars_dtype.inner,
-            shape=shape,
+            shape=polars_dtype.size,
         )
 
 
